@@ -55,6 +55,9 @@ class Fock:
             if kd in ("fermion", "spin"):
                 assert k in self.binary, "binary occupations are case-split concretely"
                 self.n.append(SymC(symc._rv(Fraction(self.binary[k]))))
+            elif k in self.binary:
+                # a boson / ladder mode at a concrete (boundary) occupation, e.g. the vacuum
+                self.n.append(SymC(symc._rv(Fraction(self.binary[k]))))
             else:
                 v = symc.real(f"{prefix}{m.name}")
                 self.n.append(SymC(v))
@@ -149,8 +152,20 @@ class Fock:
             return r
         if e.is_Pow and e.args[1].is_Integer:
             return self.scalar(e.args[0], shift) ** int(e.args[1])
+        if e.is_Pow and e.args[0].is_Rational:
+            # q ** f(N): only at concrete occupations, where the exponent is a concrete integer
+            ex = self.scalar(e.args[1], shift).const_value()
+            if ex is None or ex[1] != 0 or ex[0].denominator != 1:
+                raise NotImplementedError(("scalar", "Pow with a non-constant exponent", str(e)[:80]))
+            return lift(Fraction(int(e.args[0].p), int(e.args[0].q)) ** int(ex[0]))
         if isinstance(e, sympy.conjugate):
             return self.scalar(e.args[0], shift).conjugate()
+        if isinstance(e, sympy.Abs):
+            # only at concrete occupations (real constant argument)
+            v = self.scalar(e.args[0], shift).const_value()
+            if v is None or v[1] != 0:
+                raise NotImplementedError(("scalar", "Abs of a non-constant", str(e)[:80]))
+            return lift(abs(v[0]))
         raise NotImplementedError(("scalar", type(e).__name__, str(e)[:80]))
 
     @staticmethod
@@ -302,6 +317,17 @@ class MatrixRep:
             for x in e.args:
                 out = out @ self.matrix(x)
             return out
+        if isinstance(e, sympy.Abs):
+            X = self.matrix(e.args[0])
+            d = np.diag(X)
+            assert np.allclose(X, np.diag(d)), "Abs of a non-diagonal operator"
+            return np.diag(np.abs(d)).astype(complex)
+        if e.is_Pow and e.args[0].is_Rational and not e.args[1].is_Integer:
+            # q ** f(N): a function of number operators (diagonal in the occupation basis)
+            X = self.matrix(e.args[1])
+            d = np.diag(X)
+            assert np.allclose(X, np.diag(d)) and np.allclose(d.imag, 0) and np.allclose(d.real, np.round(d.real)), "q ** (non-integer or non-diagonal exponent)"
+            return np.diag(np.power(complex(float(e.args[0])), np.round(d.real).astype(int)))
         if e.is_Pow and e.args[1].is_Integer:
             M = self.matrix(e.args[0])
             p = int(e.args[1])
